@@ -147,6 +147,8 @@ def gen_netlist(rng: random.Random, max_comps=5, max_pins=4, kind="random", min_
 
 
 def comp_model(c):
+    if c.get("ps"):
+        return lk.PhaseShifter().pin_mapping({Pin("a0"): Pin("p0"), Pin("b0"): Pin("p1")})
     n = c["n"]
     S = j2m(c["S"])
     perm = c.get("perm") or list(range(n))
